@@ -22,6 +22,7 @@ vars == <<fb, bytes, m, prev, inside, depth, hist>>
 \* <<w, h, N - BUFFER_SIZE>>; these are the Framebuffer types the recorder instantiates
 CfgsQuick == {<<1, 1, 0>>, <<3, 2, 0>>, <<3, 2, 2>>, <<5, 1, 0>>, <<9, 2, 0>>, <<9, 2, 2>>}
 CfgsWide == {<<1, 1, 0>>, <<3, 2, 2>>, <<9, 2, 0>>}
+CfgsWide3 == {<<1, 1, 0>>, <<3, 2, 2>>, <<5, 1, 0>>}
 
 VMax(bpp) == IF bpp = 32 THEN -1 ELSE 2 ^ bpp - 1
 \* a value whose bits / bytes are not symmetric
